@@ -265,7 +265,30 @@ pub fn c02(cfg: &Config, tr: &Trace, an: &Analysis, out: &mut Vec<Violation>) {
     for u in &an.unknown {
         out.push(v("C04", "unknown-scenario", format!("event of unknown scenario {u}")));
     }
+    // identity: one `Source` per feature / rule / scenario for all their events (attempts included)
+    let mut f_ptr: BTreeMap<String, usize> = BTreeMap::new();
+    let mut r_ptr: BTreeMap<String, usize> = BTreeMap::new();
+    let mut s_ptr: BTreeMap<String, usize> = BTreeMap::new();
+    fn chk(m: &mut BTreeMap<String, usize>, name: &str, p: usize, what: &str) -> Option<String> {
+        let prev = *m.entry(name.to_owned()).or_insert(p);
+        (prev != p).then(|| format!("{what} {name} is referred to by two different `Source`s"))
+    }
+    for te in &tr.events {
+        if let Ev::Sc { f, r, s, ptrs, .. } = &te.ev {
+            let mut bad = chk(&mut f_ptr, f, ptrs.0, "feature");
+            if let Some(r) = r {
+                bad = bad.or(chk(&mut r_ptr, r, ptrs.1, "rule"));
+            }
+            bad = bad.or(chk(&mut s_ptr, s, ptrs.2, "scenario"));
+            if let Some(msg) = bad {
+                out.push(v("C02", "source-identity", msg));
+                break;
+            }
+        }
+    }
 }
+
+
 
 // ------------------------------------------------------------------------ C03
 
